@@ -1,0 +1,9 @@
+//go:build verif
+
+// Contracts for package tagformat, checked by /verif/govc (see /verif/DESIGN.md).  Comment-only file.
+
+package tagformat
+
+//@ func tagformat.NewTagReformattingMangler(tagName, enc, dec) (m)
+//@   safety C16
+//@   ensures m != nil && fresh(m) && m.tag == tagName
